@@ -197,6 +197,10 @@ func (root *Root) regField(obj *Object, fd *FieldDef, goField string, args ...st
 	obj.mu.Lock()
 	meta := obj.meta
 	obj.mu.Unlock()
+	if meta == nil {
+		// No Go type, for example the root object is nil.
+		return fmt.Errorf("%w: no Go type to resolve field %s of %s with", ErrMeta, goField, obj.N)
+	}
 	if meta.Kind() == reflect.Ptr {
 		meta = meta.Elem()
 	}
